@@ -47,6 +47,12 @@ spec fn stream_arg_ok(stream: Seq<u8>, m: Match, bytes: Seq<u8>) -> bool {
         decreases strm.len() - it.reported(), it.rest().len(),
 //@@ before /let mut it = match StreamChunkIter::new/
     let ghost strm = rdr.stream();
+//@@ before /wtr\.write\w*\(bytes\)\?;/
+                    let ghost out0 = wtr.out();
+//@@ after /wtr\.write\w*\(bytes\)\?;/
+                    // C08: every byte of a non-match chunk reaches the writer (a short write must
+                    // not lose the tail of the chunk)
+                    assert(wtr.out() == out0 + bytes@); // [C08]
 //@@ end
 
 } // verus!
